@@ -48,6 +48,10 @@ def _free_value(rng, depth=0):
         return {"$raw": rng.choice(['"line1\\nline2"', "'tab\\there'", '"a\\nb\\nc\\n"', '"C:\\\\data\\\\new"'])}
     if r < 0.72:
         return rng.random() < 0.5
+    if r < 0.76:
+        # a quoted string that itself spans lines (a description, a multi-line label): what follows it starts further down
+        return {"$raw": rng.choice(['"first line\nsecond line"', "'a\n\nb'", '"ends with a break\n"', '"x\r\ny"',
+                                    '"one\ntwo\nthree"'])}
     if r < 0.92 and depth < 3:
         return [_free_value(rng, depth + 1) for _ in range(rng.choice([0, 1, 2, 3, 4]))]
     if depth == 0:
